@@ -97,7 +97,9 @@ func varName(vr *types.Var, suffix string) string {
 func varNameForType(t types.Type) string {
 	nestedType := func(t types.Type) string {
 		if t, ok := t.(*types.Basic); ok {
-			return deCapitalise(t.String())
+			// Name, not String: unsafe.Pointer's String() is the qualified
+			// "unsafe.Pointer", which is not usable inside an identifier.
+			return deCapitalise(t.Name())
 		}
 		return varNameForType(t)
 	}
